@@ -17,8 +17,13 @@ type c02Case struct {
 
 // c02RunHistory runs ops on a fresh shard; checks all read shapes after every step.
 // Returns the index of the first no-op step (or -1) so that the enumerator can prune.
+// c02DirSeq: a directory of its own per execution (path-keyed process caches of the engine; see c09DirSeq)
+var c02DirSeq int
+
 func c02RunHistory(rep *kit.Report, dir string, ops []string, queries []vQuery, record bool) (noopAt int, failed bool) {
 	noopAt = -1
+	c02DirSeq++
+	dir = fmt.Sprintf("%s-%d", dir, c02DirSeq)
 	_ = os.RemoveAll(dir)
 	v, err := vOpenShard(dir)
 	if err != nil {
@@ -33,8 +38,25 @@ func c02RunHistory(rep *kit.Report, dir string, ops []string, queries []vQuery, 
 	}()
 	m := vModel{}
 	prevLayout := v.Layout()
+	// Known defect of C01 seen through a clean reopen (KNOWN_FINDINGS: overwrite_reverted_to_older_acked_value_multi_partition_wal):
+	// the WAL spreads records over its partitions with a counter that a flush does not reset, replay starts at partition 0;
+	// after a flush, two or more unflushed writes to one key can be replayed in the wrong order. Classified, not hidden:
+	// only a wrong value right after a reopen that replayed >= 2 writes acknowledged after a flush gets the kind below.
+	flushedOnce, unflushedWrites, walOrderStep := false, 0, false
 	for i, op := range ops {
 		before := m.Digest()
+		switch {
+		case op == "F":
+			flushedOnce, unflushedWrites = true, 0
+		case op == "WB":
+			unflushedWrites += 16
+		case vWriteIndex(op) >= 0:
+			unflushedWrites++
+		}
+		walOrderStep = op == "RO" && flushedOnce && unflushedWrites >= 2
+		if op == "RO" {
+			unflushedWrites = 0
+		}
 		if err := vApply(v, m, op, i+1); err != nil {
 			rep.Violation("op_error", strings.Join(ops[:i+1], " "), fmt.Sprintf("op %s failed: %v", op, err), c02Case{ops[:i+1]})
 			return -1, true
@@ -66,7 +88,11 @@ func c02RunHistory(rep *kit.Report, dir string, ops []string, queries []vQuery, 
 				return -1, true
 			}
 			if len(diffs) > 0 {
-				rep.Violation(c02Classify(diffs), strings.Join(ops[:i+1], " "), fmt.Sprintf("%v: %s (layout %s)", q, strings.Join(diffs, "; "), layout), c02Case{ops[:i+1]})
+				kind := c02Classify(diffs)
+				if walOrderStep && kind == "wrong_value" {
+					kind = "reopen_replays_unflushed_writes_in_wrong_order"
+				}
+				rep.Violation(kind, strings.Join(ops[:i+1], " "), fmt.Sprintf("%v: %s (layout %s)", q, strings.Join(diffs, "; "), layout), c02Case{ops[:i+1]})
 				return -1, true
 			}
 		}
@@ -173,7 +199,9 @@ func c02Explore(rep *kit.Report, scratch string, ops []string, depth int, querie
 				names[i] = ops[o]
 			}
 			rep.Count("histories", 1)
-			noopAt, failed := c02RunHistory(rep, dir, names, queries, true)
+			var noopAt int
+			var failed bool
+			rep.RunConfirmed(func() { noopAt, failed = c02RunHistory(rep, dir, names, queries, true) })
 			if failed {
 				// re-run for determinism (DESIGN 2.1): a failure that does not repeat is a harness bug
 				rep.Count("failed_histories", 1)
